@@ -466,6 +466,7 @@ type scenarioIndex struct {
 		Obligation string `json:"obligation"`
 		File       string `json:"file"`
 		Pkg        string `json:"pkg"`
+		Race       bool   `json:"race"`
 	} `json:"scenarios"`
 }
 
@@ -501,7 +502,11 @@ func scenarioReplay(e *Engine, o *Obligation, rep map[string]interface{}) bool {
 		os.WriteFile(ovPath, ov, 0o644)
 		ctx, cancel := context.WithTimeout(context.Background(), 180*time.Second)
 		defer cancel()
-		cmd := exec.CommandContext(ctx, "go", "test", "-overlay", ovPath, "-vet=off", "-count=1", "-timeout", "120s", "-run", "^TestGovcScenario", "./"+rel)
+		argv := []string{"test", "-overlay", ovPath, "-vet=off", "-count=1", "-timeout", "120s", "-run", "^TestGovcScenario", "./" + rel}
+		if s.Race {
+			argv = append([]string{"test", "-race"}, argv[1:]...)
+		}
+		cmd := exec.CommandContext(ctx, "go", argv...)
 		cmd.Dir = e.repo
 		cmd.Env = append(os.Environ(), "GOFLAGS=-mod=mod", "GOPROXY=off", "GOSUMDB=off", "GOTOOLCHAIN=local")
 		out, _ := cmd.CombinedOutput()
@@ -511,7 +516,7 @@ func scenarioReplay(e *Engine, o *Obligation, rep map[string]interface{}) bool {
 		}
 		rep["replay_scenario"] = s.File
 		rep["replay_output"] = so
-		if strings.Contains(so, "GOVC-VIOLATED") {
+		if strings.Contains(so, "GOVC-VIOLATED") || (s.Race && strings.Contains(so, "WARNING: DATA RACE")) {
 			o.replayed = true
 			rep["replay"] = "scenario confirmed the violation on the real code"
 		} else {
